@@ -146,30 +146,33 @@ fn check_function(sink: &mut Sink, a: &Sess, def_desc: &serde_json::Value, sig_h
 fn part_shapes(ctx: &Ctx, sink: &mut Sink) {
     let tuples = ctx.budget(14, 40) as usize;
     let fixed: Vec<Vec<&str>> = vec![
-        vec!["2", "3", "7", "0.5", "(q => q + 1)"],
-        vec!["true", "false", "true", "false", "(q => !q)"],
-        vec!["[1, 2]", "0", "[3, 4]", "1", "(q => q)"],
-        vec!["0.1", "0.2", "0.3", "100", "abs"],
-        vec!["{k: 1}", "\"k\"", "{k: 2}", "null", "(q => q.k)"],
-        vec!["(-2)", "3", "2", "2", "(q => q * 2)"],
-        vec!["null", "1", "null", "2", "(q => q ?? 5)"],
-        vec!["(q => q + 1)", "1", "(q => q * 3)", "2", "(q => q)"],
-        vec!["5", "0", "1", "true", "(q => [q])"],
+        vec!["2", "3", "7", "0.5", "(q => q + 1)", "4", "9"],
+        vec!["true", "false", "true", "false", "(q => !q)", "true", "false"],
+        vec!["[1, 2]", "0", "[3, 4]", "1", "(q => q)", "0", "[5]"],
+        vec!["0.1", "0.2", "0.3", "100", "abs", "0.7", "3"],
+        vec!["{k: 1}", "\"k\"", "{k: 2}", "null", "(q => q.k)", "\"k\"", "{k: 3}"],
+        vec!["(-2)", "3", "2", "2", "(q => q * 2)", "2", "(-1)"],
+        vec!["null", "1", "null", "2", "(q => q ?? 5)", "null", "3"],
+        vec!["(q => q + 1)", "1", "(q => q * 3)", "2", "(q => q)", "(q => q - 1)", "5"],
+        vec!["5", "0", "1", "true", "(q => [q])", "false", "1"],
+        vec!["[1, 2]", "1", "2", "3", "(q => q + 1)", "(q => q * 2)", "true"],
     ];
-    for (i, sh) in shapes::two_level().iter().enumerate() {
+    let mut all = shapes::two_level();
+    all.extend(shapes::wrapped_two_level());
+    for (i, sh) in all.iter().enumerate() {
         if !ctx.mine(i as u64) {
             continue;
         }
         let mut r = Rng::derive(ctx.seed, "c05-shape", i as u64);
         let body = print_full(&sh.tree);
         // parenthesised: a lambda body does not admit a bare via / into / where chain
-        let def = format!("f = (a, b, c, d, f) => ({})", body);
+        let def = format!("f = (a, b, c, d, f, e, g) => ({})", body);
         let a = Sess::new();
         if !a.eval(&def).is_ok() {
             sink.count("shape-definition-not-admitted", 1);
             continue;
         }
-        check_function(sink, &a, &json!(def), &format!("printer ctx={} child={}", sh.ctx, sh.child), 5, &mut r, tuples, &fixed, &format!("shape|{}", def));
+        check_function(sink, &a, &json!(def), &format!("printer ctx={} child={}", sh.ctx, sh.child), 7, &mut r, tuples, &fixed, &format!("shape|{}", def));
     }
 }
 
@@ -246,6 +249,9 @@ fn capture_bodies() -> Vec<(&'static str, &'static str)> {
         ("nested-lambda-shadowing-parameter", "(cap => cap)(x)"),
         ("do-block", "do {\n  t = cap\n  return [t, x]\n}"),
         ("do-block-shadowing-local", "do {\n  cap = x\n  return cap\n}"),
+        ("do-local-shadows-captured-also-used-outside", "[do {\n  cap = x\n  return cap\n}, cap]"),
+        ("inner-parameter-shadows-captured-also-used-outside", "[(cap => [cap])(x), cap]"),
+        ("do-local-rebinds-captured-from-itself", "do {\n  cap = [cap, x]\n  return cap\n}"),
         ("string-concat", "to_string(cap) + \"!\""),
         ("comparison", "cap .< x"),
         ("dynamic-key", "{[to_string(cap)]: 1}"),
@@ -289,6 +295,37 @@ fn part_captures(ctx: &Ctx, sink: &mut Sink) {
     }
 }
 
+/// the function's own parameter (and inner parameters / locals) are named like a top-level binding
+fn part_param_named_like_global(ctx: &Ctx, sink: &mut Sink) {
+    if ctx.shard_i != 0 {
+        return;
+    }
+    let bodies = [
+        "g * 2",
+        "(g => g + 1)(g) * g",
+        "[(g => g + 1)(g), g]",
+        "do {\n  g = g + 1\n  return g\n} * g",
+        "[[1] via (g => g + 1), g]",
+        "((g, h) => g + h)(g, 1) + g",
+        "(h => (g => g * h)(h))(g) + g",
+        "if g > 1 then (g => g)(g) else g",
+        "{g}.g + g",
+        "do {\n  h = (g => g * 2)\n  return h(g) + g\n}",
+    ];
+    let fixed: Vec<Vec<&str>> = vec![vec!["3"], vec!["0"], vec!["7"], vec!["(-2)"], vec!["0.5"]];
+    for (i, body) in bodies.iter().enumerate() {
+        let mut r = Rng::derive(ctx.seed, "c05-pg", i as u64);
+        let a = Sess::new();
+        let _ = a.eval("g = 42");
+        let _ = a.eval("h = 1000");
+        let def = format!("f = g => {}", body);
+        if !a.eval(&def).is_ok() {
+            continue;
+        }
+        check_function(sink, &a, &json!({"setup": ["g = 42", "h = 1000"], "definition": def}), &format!("parameter-named-like-global body={}", i), 1, &mut r, 10, &fixed, &format!("pg|{}", def));
+    }
+}
+
 fn part_random(ctx: &Ctx, sink: &mut Sink) {
     let n = ctx.budget(24_000, 400_000);
     let tuples = ctx.budget(8, 20) as usize;
@@ -315,11 +352,18 @@ fn part_random(ctx: &Ctx, sink: &mut Sink) {
                 setup.push(stmt);
             }
         }
+        // half of the cases also have a top-level binding named like the parameter
+        if r.chance(1, 2) {
+            let stmt = format!("x = {}", 40 + r.below(9));
+            if a.eval(&stmt).is_ok() {
+                setup.push(stmt);
+            }
+        }
         let depth = 1 + r.below(6);
         let rt = *r.pick(&[Ty::Num, Ty::Bool, Ty::Str, Ty::LNum, Ty::Rec, Ty::Any]);
         let body = {
             sc.vars.push(("x".into(), Ty::Num));
-            let mut g = Gen::new(&mut r, GenCfg { odd_strings: true, ..GenCfg::default() });
+            let mut g = Gen::new(&mut r, GenCfg { odd_strings: true, shadowing_permille: 350, ..GenCfg::default() });
             let b = g.expr(rt, depth, &mut sc);
             sc.vars.pop();
             b
@@ -431,6 +475,7 @@ pub fn run(ctx: &Ctx, sink: &mut Sink) {
         part_captures(ctx, sink);
     }
     if part == "all" || part == "random" {
+        part_param_named_like_global(ctx, sink);
         part_random(ctx, sink);
     }
     if part == "all" || part == "cli" {
